@@ -136,6 +136,20 @@ pub fn gen_c11(rng: &mut Rng, thorough: bool) -> Vec<Tagged> {
             }
         }
     }
+    // block bodies whose repetition overflows (gain 1e13) with every accumulation and skip combination
+    for (ai, acc) in ALL_ACCS.iter().enumerate() {
+        for (inskips, outskips) in [(false, false), (true, true), (false, true)] {
+            let n = 1 + ai % 2;
+            let mut w = vec![0.0f32; n * n];
+            for i in 0..n {
+                w[i * n + i] = if i == 0 { 1e13 } else { -2e12 };
+            }
+            let mut spec = NetSpec::new(Sh::Flat(n).to_shape());
+            spec.layers.push(LayerSpec::Block { layers: vec![Simple::Dense { out: n, act: Act::Linear, bias: false, dropout: None }], loops: 4, inskips, outskips, acc: *acc });
+            spec.weights = Some(vec![LW::Block(vec![W::Dense(t2(n, n, &w), None)])]);
+            out.push((format!("block-overflowing-body-{:?}", acc), Case::Net(spec, NetCmd::Forward(t1(vec![1.0; n])))));
+        }
+    }
     // two blocks in one network: each computes ITS repeated sequence
     for r in 0..(if thorough { 40 } else { 10 }) {
         let (spec, input, _) = two_block_net(rng, r, 1);
@@ -417,6 +431,26 @@ pub fn gen_c17(rng: &mut Rng, thorough: bool) -> Vec<Tagged> {
             spec.loops.push((2, 1, 1, false)); // duplicate source
         }
         out.push(("loop-builder".into(), Case::Net(spec, NetCmd::Shapes)));
+    }
+    // loop bodies whose repeated application overflows (gain 1e13: 1e13, 1e26, inf, ...) or carries NaN:
+    // the accumulated value is still the configured accumulation of ALL k+1 outputs (inf / NaN included)
+    for (ai, acc) in ALL_ACCS.iter().enumerate() {
+        for (k, insk) in [(3usize, false), (4, true)] {
+            let n = 1 + ai % 2;
+            let mut spec = NetSpec::new(Sh::Flat(n).to_shape());
+            let mut w = vec![0.0f32; n * n];
+            for i in 0..n {
+                w[i * n + i] = if i == 0 { 1e13 } else { -3e12 };
+            }
+            let d = Simple::Dense { out: n, act: Act::Linear, bias: false, dropout: None };
+            let head = Simple::Dense { out: 1, act: if k == 3 { Act::Sigmoid } else { Act::Linear }, bias: false, dropout: None };
+            spec.layers.push(LayerSpec::One(d));
+            spec.layers.push(LayerSpec::One(head));
+            spec.weights = Some(vec![LW::One(W::Dense(t2(n, n, &w), None)), LW::One(W::Dense(t2(1, n, &vec![1.0; n]), None))]);
+            spec.loops = vec![(0, 0, k, insk)];
+            spec.loopacc = *acc;
+            out.push((format!("loop-{:?}-k{}-overflowing-body", acc, k), Case::Net(spec, NetCmd::Forward(t1(vec![1.0; n])))));
+        }
     }
     out
 }
